@@ -95,6 +95,26 @@ theorem page_number_next_from_dom (S : Scan.A) (root : Node) (gs : List PGroup) 
       · exact Or.inr (Or.inl hs)
       · exact Or.inr (Or.inr hs)
 
+/-- … and likewise PrevPage, which in addition is never the page itself -/
+theorem page_number_prev_from_dom (S : Scan.A) (root : Node) (gs : List PGroup) (h : Scan.scanGroups S root = some gs)
+    (A : Atoms) (arg s1 s2 : String) :
+    let r := numberPrevNext (detectParamInfo A gs arg) s1 s2
+    r.2 = "" ∨ (isJs r.2 = false ∧ r.2 ≠ s1 ∧ r.2 ≠ s2 ∧
+      ((∃ id n, S.pageInfo id = some (n, r.2)) ∨ r.2 = A.docURL ∨ r.2 = trimPathSlash A.docURL)) := by
+  intro r
+  rcases (number_links A gs arg s1 s2).2 with h0 | ⟨hj, hs, hn1, hn2⟩
+  · exact Or.inl h0
+  · by_cases he : r.2 = ""
+    · exact Or.inl he
+    · right
+      refine ⟨hj, hn1, hn2, ?_⟩
+      rcases hs with hs | hs | hs
+      · rcases scan_group_urls S root gs h _ hs with h1 | h1
+        · exact absurd h1 he
+        · exact Or.inl h1
+      · exact Or.inr (Or.inl hs)
+      · exact Or.inr (Or.inr hs)
+
 /-- when the document URL the detection works with (and may insert as first page) is one of the
 two spellings `FindPagination` compares with — `s2`, the escaped form without user info, is
 how `DetectParamInfo` spells it — PrevPage is empty or a scanned URL, never the page itself -/
